@@ -472,6 +472,7 @@ class Ev:
         self.hooks = hooks or {}      # def-path suffix -> python function(ev, args_values, expr) -> value
         self._summary = {}
         self.zero_shapes = []         # shapes passed to zeros(..) constructors during the last evaluation
+        self.outer_locals = []        # per enclosing summarised for-loop: ids of the locals that existed before it
         self.guards, self.loops = [], []   # path condition / enclosing loops while executing loop bodies for effect
         self.path = []                     # conditions already decided on the current forked path (for pruning re-tests)
 
@@ -1089,12 +1090,14 @@ class Ev:
                         if (isinstance(cur, Tup) and not cur.items) or (isinstance(cur, Sym) and cur.tag[:2] == ("call", "std::vec::Vec::<T>::with_capacity")):
                             push_ids.append(t_["id"])
             env0 = fork_env(env) if push_ids else None
+            self.outer_locals.append(set(env.keys()))
             self.bind(x["pat"], it.fn(Poly.atom(name)), env)
             self.loops.append((name, vkey(it.src)))
             try:
                 self.exec_stmt(x["body"], env, depth)
             finally:
                 self.loops.pop()
+                self.outer_locals.pop()
             for rid in push_ids:
                 def pushed(idx, rid=rid, it=it, env0=env0, x=x, depth=depth, lvl=len(self.loops)):
                     env3 = fork_env(env0)
@@ -1155,14 +1158,14 @@ class Ev:
             lhs = x["l"]
             if lhs.get("k") == "index":
                 return self.index_write(lhs, self.eval(x["r"], env, depth), env, depth, x)
-            self.assign(lhs, self.eval(x["r"], env, depth), env)
+            self.assign(lhs, self.carried(lhs, self.eval(x["r"], env, depth), env), env)
             return
         if k == "assignop":
             cur = self.eval(x["l"], env, depth)
             val = self.arith(x["op"], cur, self.eval(x["r"], env, depth), x, depth)
             if strip_refs(x["l"]).get("k") == "index":
                 return self.index_write(strip_refs(x["l"]), val, env, depth, x)
-            self.assign(x["l"], val, env)
+            self.assign(x["l"], self.carried(x["l"], val, env), env)
             return
         if k == "mcall" and x["m"] == "clone_from" and x["recv"].get("k") == "path" and x["recv"].get("res") == "local":
             env[x["recv"]["id"]] = self.eval(x["args"][0], env, depth)
@@ -1191,6 +1194,16 @@ class Ev:
         v = self.eval(x, env, depth)
         if isinstance(v, Sym) and v.tag[:1] == ("diverges",) and not self.loops and not self.guards:
             raise Return(v)          # `if c { panic!(..) }` as a statement: the path ends here (outside loops, where execution is per path)
+
+    def carried(self, lhs, val, env):
+        """A scalar local declared outside a summarised `for` loop and assigned inside it is loop-carried: after the loop its value is not that of one generic
+        iteration. It becomes an opaque `carried` value (of the previous value, the per-iteration update, the guards and the loop), so tests on it stay undecided."""
+        t = strip_refs(lhs)
+        if not (self.loops and self.outer_locals and t.get("k") == "path" and t.get("res") == "local" and t["id"] in self.outer_locals[-1]):
+            return val
+        prev = env.get(t["id"])
+        tag = ("carried", vkey(prev), vkey(val), tuple(self.guards), tuple(self.loops))
+        return Poly.atom(tag) if isinstance(val, Poly) and val.order == 0 else Sym(*tag)
 
     def index_write(self, lhs, val, env, depth, x):
         base = strip_refs(lhs["e"])
